@@ -34,8 +34,10 @@ import (
 type meta struct{ Cat, Cby, Mat, Mby, Exp int64 }
 
 func (m meta) coq() string {
-	return fmt.Sprintf("{| m_cat := %s; m_cby := %s; m_mat := %s; m_mby := %s; m_exp := %s |}",
-		common.Z(m.Cat), common.Z(m.Cby), common.Z(m.Mat), common.Z(m.Mby), common.Z(m.Exp))
+	if m == (meta{}) {
+		return "M0"
+	}
+	return fmt.Sprintf("(M %s %s %s %s %s)", common.Z(m.Cat), common.Z(m.Cby), common.Z(m.Mat), common.Z(m.Mby), common.Z(m.Exp))
 }
 
 type imeta struct {
@@ -50,7 +52,7 @@ func (m *imeta) coq() string {
 	if m == nil {
 		return "None"
 	}
-	return fmt.Sprintf("(Some {| i_cat := %s; i_cby := %s; i_mat := %s; i_mby := %s; i_exp := %s |})",
+	return fmt.Sprintf("(Some (IM %s %s %s %s %s))",
 		common.Bool(m.Cat), common.Z(m.Cby), common.Bool(m.Mat), common.Z(m.Mby), common.Z(m.Exp))
 }
 
@@ -149,7 +151,7 @@ func (q request) coq() string {
 		if !q.KVNil {
 			s := make([]string, len(q.KVs))
 			for i, k := range q.KVs {
-				s[i] = fmt.Sprintf("{| kv_key := %s; kv_val := %s; kv_meta := %s |}", common.Z(k.Key), k.Val.coq(), k.Meta.coq())
+				s[i] = fmt.Sprintf("(KV %s %s %s)", common.Z(k.Key), k.Val.coq(), k.Meta.coq())
 			}
 			kvs = "(Some " + common.List(s) + ")"
 		}
@@ -404,7 +406,7 @@ func viewCoq(t *hydrapb.Treasure) string {
 	if n > 1 {
 		sc = "(Some (TStr, (-99)%Z))" // more than one typed field: never a model output
 	}
-	return fmt.Sprintf("{| v_key := %s; v_exist := %s; v_sc := %s; v_sl := %s; v_meta := %s |}",
+	return fmt.Sprintf("(V %s %s %s %s %s)",
 		common.Z(tokOf(t.Key, "k")), common.Bool(t.IsExist), sc, u32list(t.Uint32Slice), metaCoqOfTreasure(t))
 }
 func floatTok(f float64) string {
@@ -1107,7 +1109,7 @@ func runHistory(s *rig.Server, idx int, persistent bool, reqs []request, watchdo
 				}
 				all, err := s.GW.GetAll(ctx, &hydrapb.GetAllRequest{IslandID: 1, SwampName: n.swamp(sw)})
 				if err != nil || all == nil {
-					ch <- "(" + common.Z(sw) + ", true, [{| v_key := (-5)%Z; v_exist := false; v_sc := None; v_sl := []; v_meta := meta0 |}])"
+					ch <- "(" + common.Z(sw) + ", true, [V (-5)%Z false None [] M0])"
 					return
 				}
 				ch <- "(" + common.Z(sw) + ", true, " + viewsCoq(all.Treasures, true) + ")"
@@ -1116,7 +1118,7 @@ func runHistory(s *rig.Server, idx int, persistent bool, reqs []request, watchdo
 			case f := <-ch:
 				fin = append(fin, f)
 			case <-time.After(watchdog):
-				fin = append(fin, "("+common.Z(sw)+", true, [{| v_key := (-6)%Z; v_exist := false; v_sc := None; v_sl := []; v_meta := meta0 |}])")
+				fin = append(fin, "("+common.Z(sw)+", true, [V (-6)%Z false None [] M0])")
 			}
 		}
 		// leave nothing behind (also exercises Destroy on whatever state the history reached)
@@ -1132,7 +1134,7 @@ func runHistory(s *rig.Server, idx int, persistent bool, reqs []request, watchdo
 			}
 		}
 	}
-	out.term = "{| cc_hist := " + common.List(hist) + "; cc_final := " + common.List(fin) + " |}"
+	out.term = "(CC " + common.List(hist) + " " + common.List(fin) + ")"
 	out.descr = map[string]interface{}{"history": human, "persistent": persistent, "final": fin}
 	out.nontrivial = writes >= 2
 	return out
@@ -1219,6 +1221,31 @@ func main() {
 			kind = "random-wild"
 		}
 		jobs = append(jobs, job{reqs: reqs, persistent: i%2 == 0, kind: kind})
+	}
+	// spread the (long) random histories evenly over the case shards
+	{
+		var ex, rnd []job
+		for _, j := range jobs {
+			if j.kind == "exhaustive" {
+				ex = append(ex, j)
+			} else {
+				rnd = append(rnd, j)
+			}
+		}
+		stride := 1
+		if len(rnd) > 0 {
+			stride = len(ex)/len(rnd) + 1
+		}
+		jobs = jobs[:0]
+		ri := 0
+		for i, j := range ex {
+			jobs = append(jobs, j)
+			if (i+1)%stride == 0 && ri < len(rnd) {
+				jobs = append(jobs, rnd[ri])
+				ri++
+			}
+		}
+		jobs = append(jobs, rnd[ri:]...)
 	}
 	if args.Only >= 0 && args.Only < len(jobs) {
 		jobs = []job{jobs[args.Only]}
